@@ -552,6 +552,7 @@ func runC07(p *core.Prog, r *core.Report) {
 		}
 		r.Check(okWait, "C07.R5", "cmdShutdownWhenComplete/await", "before the scheduler quits it waits for the asynchronous snapshot writes and quits with their error", "WaitAsyncWork not awaited before Quit", p.Pos(sh.Pos()))
 	})
+	r.Guard("C07.R5", "squash-base", "merge base", func() { checkSquashBase(p, r, "C07.R5") })
 	r.MinInstances("C07.R1", 6)
 	r.MinInstances("C07.R2", 6)
 	r.MinInstances("C07.R3", 7)
